@@ -114,7 +114,7 @@ fn targeted_list(r: &mut Rng) -> (Vec<String>, gen::Req) {
 
 fn spec(ctx: &mut Ctx) {
     let sub = "spec";
-    let cases = ctx.n(300_000, 4_000_000);
+    let cases = ctx.n(300_000, 16_000_000);
     let resdefs = standard_resources();
     let res = ResModel { defs: &resdefs };
     for idx in 0..cases {
@@ -196,7 +196,7 @@ fn spec(ctx: &mut Ctx) {
 
 fn monotone(ctx: &mut Ctx) {
     let sub = "mono";
-    let cases = ctx.n(150_000, 2_000_000);
+    let cases = ctx.n(150_000, 8_000_000);
     for idx in 0..cases {
         if ctx.stop() {
             break;
@@ -481,7 +481,7 @@ fn one_aspect_different(r: &mut Rng, b: &BaseRule) -> (BaseRule, &'static str) {
 
 fn badfilter(ctx: &mut Ctx) {
     let sub = "badfilter";
-    let cases = ctx.n(60_000, 800_000);
+    let cases = ctx.n(60_000, 3_000_000);
     for idx in 0..cases {
         if ctx.stop() {
             break;
